@@ -392,8 +392,7 @@ const char * vbi_proxy_msg_debug_get_type_str( VBIPROXY_MSG_TYPE type )
 */
 vbi_bool vbi_proxy_msg_read_idle( VBIPROXY_MSG_STATE * pIO )
 {
-   assert((pIO->readOff == 0) || (pIO->readOff == pIO->readLen));
-
+   /* readOff between 0 and readLen: a message has been received in part */
    return (pIO->readOff == 0);
 }
 
@@ -404,8 +403,6 @@ vbi_bool vbi_proxy_msg_write_idle( VBIPROXY_MSG_STATE * pIO )
 
 vbi_bool vbi_proxy_msg_is_idle( VBIPROXY_MSG_STATE * pIO )
 {
-   assert((pIO->readOff == 0) || (pIO->readOff == pIO->readLen));
-
    return ((pIO->writeLen == 0) && (pIO->readOff == 0));
 }
 
